@@ -186,3 +186,38 @@ pub fn fmul(a: u64, b: u64) -> u64 {
 pub fn finv(a: u64) -> u64 {
     F::from_noncanonical_u64(a).inverse().to_canonical_u64()
 }
+
+/// Non-zero difference vector with algebraic structure: limbs from roots of unity and
+/// shift constants of the Goldilocks field and their negations. Two digests that differ
+/// by such a vector are still different, but they collide under equality shortcuts such
+/// as "sum of limb differences" ((1, p-1, 0, 0)), "sum of squared differences"
+/// ((1, 2^48, 0, 0): 2^96 = -1 mod p), or "packed limbs" ((p-2^32, 1, 0, 0)).
+pub fn structured_delta(rng: &mut crate::util::rng::Rng) -> D4 {
+    const S: [u64; 12] = [1, P - 1, 1 << 48, P - (1 << 48), 1 << 32, P - (1 << 32), 1 << 24, P - (1 << 24), 1 << 16, 2, P - 2, 0xFFFF_FFFF];
+    loop {
+        let mut d = [0u64; 4];
+        match rng.below(4) {
+            0 => {
+                // (x, +-y) on two limbs, the common collision shape
+                let i = rng.usize(4);
+                let j = (i + 1 + rng.usize(3)) % 4;
+                d[i] = *rng.pick(&S[..2]);
+                d[j] = *rng.pick(&S);
+            }
+            _ => {
+                for x in d.iter_mut() {
+                    if rng.bool() {
+                        *x = *rng.pick(&S);
+                    }
+                }
+            }
+        }
+        if d != [0; 4] {
+            return d;
+        }
+    }
+}
+
+pub fn add4(a: &D4, d: &D4) -> D4 {
+    [fadd(a[0], d[0]), fadd(a[1], d[1]), fadd(a[2], d[2]), fadd(a[3], d[3])]
+}
